@@ -40,6 +40,26 @@ func cEnum(text string, v int64) *idlgen.Const {
 	return &idlgen.Const{Kind: idlgen.CIdent, Text: text, Val: values.Int(v)}
 }
 
+func cList(items ...*idlgen.Const) *idlgen.Const {
+	c := &idlgen.Const{Kind: idlgen.CList, Sep: ",", Items: items, Val: &values.Value{K: values.KList, E: []*values.Value{}}}
+	for _, it := range items {
+		c.Val.E = append(c.Val.E, it.Val)
+	}
+	return c
+}
+func cSet(items ...*idlgen.Const) *idlgen.Const {
+	c := cList(items...)
+	c.Val.K = values.KSet
+	return c
+}
+func cMap(kvs ...*idlgen.Const) *idlgen.Const {
+	c := &idlgen.Const{Kind: idlgen.CMap, Sep: ",", Items: kvs, Val: &values.Value{K: values.KMap, E: []*values.Value{}}}
+	for _, it := range kvs {
+		c.Val.E = append(c.Val.E, it.Val)
+	}
+	return c
+}
+
 func fld(id int16, name string, req idlgen.Req, t *idlgen.Type, d *idlgen.Const) *idlgen.Field {
 	return &idlgen.Field{ID: id, HasID: true, Name: name, Req: req, Type: t, Default: d}
 }
@@ -142,6 +162,23 @@ func aimShapes() *idlgen.Program {
 		st.Fields = append(st.Fields, fld(int16(n+1), "opt", rO, i32, nil))
 		return st
 	}
+	// container fields WITH IDL defaults (installed by NewT(), also for nested structs, list elements, map values): a
+	// reader must REPLACE the default by what is on the wire (a subset, something else, nothing)
+	main.Structs = append(main.Structs,
+		&idlgen.Struct{Kind: 's', Name: "Limits", Fields: []*idlgen.Field{
+			fld(1, "lim", rD, tMap(str, i32), cMap(cStr("cpu"), cInt(1), cStr("mem"), cInt(2))),
+			fld(2, "li", rD, tList(i32), cList(cInt(1), cInt(2), cInt(3))),
+			fld(3, "ss", rD, tSet(str), cSet(cStr("a"), cStr("b"))),
+			fld(4, "om", rO, tMap(i32, str), cMap(cInt(1), cStr("x"))),
+			fld(5, "n", rD, i32, nil),
+			fld(6, "mm", rR, tMap(tBase(idlgen.I16), tList(i32)), cMap(cInt(7), cList(cInt(1)))),
+		}},
+		&idlgen.Struct{Kind: 's', Name: "Holder", Fields: []*idlgen.Field{
+			fld(1, "one", rD, tName(0, "Limits"), nil),
+			fld(2, "many", rD, tList(tName(0, "Limits")), nil),
+			fld(3, "byName", rD, tMap(str, tName(0, "Limits")), nil),
+			fld(4, "opt", rO, tName(0, "Limits"), nil),
+		}})
 	main.Structs = append(main.Structs, mkReq("Req5", 5), mkReq("Req8", 8), mkReq("Req9", 9), mkReq("Req14", 14), mkReq("Req17", 17), &idlgen.Struct{Kind: 's', Name: "Empty"})
 	return &idlgen.Program{Files: []*idlgen.File{main, base}}
 }
